@@ -99,32 +99,93 @@ Proof.
   destruct (chars_next t) as [c s1]. destruct (chars_next s1) as [n s2]. eexists. reflexivity.
 Qed.
 
+(** the local part of the invariant: the reader's text splits into committed, buffered, unread *)
+Definition linv (r : reader) (P Bf S : text) : Prop :=
+  r_text r = P ++ Bf ++ S /\ bytes P = r_pos r /\ bytes Bf = r_blen r /\ repr r S.
+
+Lemma bytes_nonempty : forall c (S : text), 1 <= bytes (c :: S).
+Proof. intros c S. cbn [bytes]. pose proof (blen_pos c). lia. Qed.
+
+Lemma linv_not_eof : forall r P Bf S, linv r P Bf S -> is_eof r = false ->
+  exists c S', S = c :: S' /\ r_cur r = c.
+Proof.
+  intros r P Bf S [E1 [E2 [E3 [R1 _]]]] Z. unfold is_eof in Z. apply N.leb_gt in Z.
+  rewrite E1 in Z. rewrite !bytes_app in Z.
+  destruct S as [|c S']; [cbn [bytes] in Z; lia|].
+  exists c, S'. split; [reflexivity|exact R1].
+Qed.
+
+Lemma linv_eof : forall r P Bf S, linv r P Bf S -> is_eof r = true -> S = [].
+Proof.
+  intros r P Bf S [E1 [E2 [E3 _]]] Z. unfold is_eof in Z. apply N.leb_le in Z.
+  rewrite E1 in Z. rewrite !bytes_app in Z.
+  destruct S as [|c S']; [reflexivity|]. pose proof (bytes_nonempty c S'). lia.
+Qed.
+
+Lemma repr_bump : forall r c S, repr r (c :: S) -> is_eof r = false -> repr (bump r) S.
+Proof.
+  intros r c S [R1 [R2 R3]] Z. cbn [hd tl] in R1, R2, R3.
+  unfold bump. rewrite Z.
+  destruct (chars_next (r_chars r)) as [n s] eqn:C. unfold repr. cbn [r_cur r_next r_chars].
+  rewrite R3 in C.
+  destruct S as [|y [|z S]]; cbn [hd tl] in *; cbn in C; inversion C; subst n s.
+  - split; [exact R2|]. split; reflexivity.
+  - split; [exact R2|]. split; reflexivity.
+  - split; [exact R2|]. split; reflexivity.
+Qed.
+
+Lemma bump_fields : forall r, is_eof r = false ->
+  r_text (bump r) = r_text r /\ r_start (bump r) = r_start r /\ r_len (bump r) = r_len r /\
+  r_pos (bump r) = r_pos r /\ r_blen (bump r) = r_blen r + blen (r_cur r).
+Proof.
+  intros r Z. unfold bump. rewrite Z.
+  destruct (chars_next (r_chars r)) as [n s]. cbn. repeat split.
+Qed.
+
+Lemma linv_bump : forall r P Bf c S, linv r P Bf (c :: S) -> is_eof r = false ->
+  linv (bump r) P (Bf ++ [c]) S.
+Proof.
+  intros r P Bf c S [E1 [E2 [E3 R]]] Z.
+  destruct (bump_fields r Z) as [F1 [F2 [F3 [F4 F5]]]].
+  pose proof R as [R1 _]. cbn [hd] in R1.
+  assert (X : (Bf ++ [c]) ++ S = Bf ++ c :: S) by (rewrite <- app_assoc; reflexivity).
+  unfold linv. rewrite X, F1, F4, F5.
+  split; [exact E1|]. split; [exact E2|]. split; [rewrite bytes_app; cbn [bytes]; rewrite R1; lia|].
+  eapply repr_bump; eassumption.
+Qed.
+
+Lemma rinv_linv : forall T lo hi r, rinv T lo hi r -> exists P Bf S, linv r P Bf S.
+Proof.
+  intros T lo hi r [A [P [Bf [S [B [E1 [E2 [E3 [E4 [E5 [E6 [R _]]]]]]]]]]]].
+  exists P, Bf, S. split; [exact E2|]. split; [exact E5|]. split; [exact E6|exact R].
+Qed.
+
 Lemma rinv_bump : forall T lo hi r, rinv T lo hi r -> rinv T lo hi (bump r).
 Proof.
-  intros T lo hi r [A [P [Bf [S [B [E1 [E2 [E3 [E4 [E5 [E6 [[R1 [R2 R3]] [L1 L2]]]]]]]]]]]]].
-  unfold bump. destruct (N.eqb_spec (r_cur r) EOF) as [Z|Z].
-  - exists A, P, Bf, S, B. repeat split; assumption.
-  - destruct S as [|c S]; [cbn in R1; contradiction|].
-    cbn [hd tl] in R1, R2, R3.
-    destruct (chars_next (r_chars r)) as [n s] eqn:C.
-    exists A, P, (Bf ++ [c]), S, B.
-    cbn [r_text r_start r_len r_pos r_blen r_cur r_next r_chars].
-    assert (X : (Bf ++ [c]) ++ S = Bf ++ c :: S) by (rewrite <- app_assoc; reflexivity).
-    rewrite X. repeat split; try assumption.
-    + rewrite bytes_app. cbn [bytes]. rewrite R1. lia.
-    + unfold repr. cbn [r_cur r_next r_chars].
-      rewrite R3 in C. destruct S as [|y S]; cbn [tl hd] in *.
-      * cbn in C. inversion C; subst. repeat split; assumption.
-      * destruct S as [|z S]; cbn in C; inversion C; subst; repeat split; assumption.
+  intros T lo hi r H.
+  destruct (is_eof r) eqn:Z.
+  - unfold bump. rewrite Z. exact H.
+  - destruct H as [A [P [Bf [S [B [E1 [E2 [E3 [E4 [E5 [E6 [R [L1 L2]]]]]]]]]]]]].
+    assert (LI : linv r P Bf S) by (split; [exact E2|]; split; [exact E5|]; split; [exact E6|exact R]).
+    destruct (linv_not_eof _ _ _ _ LI Z) as [c [S' [ES EC]]]. subst S.
+    destruct (linv_bump _ _ _ _ _ LI Z) as [G1 [G2 [G3 G4]]].
+    destruct (bump_fields r Z) as [F1 [F2 [F3 [F4 F5]]]].
+    assert (X : (Bf ++ [c]) ++ S' = Bf ++ c :: S') by (rewrite <- app_assoc; reflexivity).
+    exists A, P, (Bf ++ [c]), S', B. rewrite X, F1, F2, F3.
+    split; [exact E1|]. split; [exact E2|]. split; [exact E3|]. split; [exact E4|].
+    split; [exact G2|]. split; [exact G3|]. split; [exact G4|]. split; assumption.
 Qed.
 
 Lemma rinv_reset : forall T lo hi r, rinv T lo hi r -> rinv T lo hi (reset_buff r).
 Proof.
   intros T lo hi r [A [P [Bf [S [B [E1 [E2 [E3 [E4 [E5 [E6 [R [L1 L2]]]]]]]]]]]]].
   exists A, (P ++ Bf), [], S, B.
-  cbn [r_text r_start r_len r_pos r_blen app].
-  rewrite <- app_assoc. repeat split; try assumption.
-  - rewrite bytes_app. lia.
+  cbn [reset_buff r_text r_start r_len r_pos r_blen app].
+  assert (X : (P ++ Bf) ++ S = P ++ Bf ++ S) by (rewrite <- app_assoc; reflexivity).
+  rewrite X.
+  split; [exact E1|]. split; [exact E2|]. split; [exact E3|]. split; [exact E4|].
+  split; [rewrite bytes_app; lia|]. split; [reflexivity|].
+  split; [exact R|]. split; assumption.
 Qed.
 
 Lemma rinv_set_prev : forall T lo hi r p, rinv T lo hi r -> rinv T lo hi (set_prev r p).
@@ -185,6 +246,19 @@ Qed.
 
 (** [reset_buff_into_sub_reader] never panics and both readers keep the invariant; the
     sub-reader's valid range is the parent's current range *)
+Lemma new_with_range_fields : forall t a l r, new_with_range t a l = Val r ->
+  r_text r = t /\ r_start r = a /\ r_len r = l /\ r_pos r = 0 /\ r_blen r = 0 /\ repr r t.
+Proof.
+  intros t a l r H. unfold new_with_range in H.
+  destruct (bytes t =? l); [|discriminate].
+  destruct (chars_next t) as [c s1] eqn:C1. destruct (chars_next s1) as [n s2] eqn:C2.
+  inversion H; subst r; clear H. cbn [r_text r_start r_len r_pos r_blen].
+  destruct (repr_of_text _ _ _ _ _ C1 C2) as [R1 [R2 R3]].
+  split; [reflexivity|]. split; [reflexivity|]. split; [reflexivity|].
+  split; [reflexivity|]. split; [reflexivity|].
+  unfold repr. cbn [r_cur r_next r_chars]. split; [exact R1|]. split; [exact R2|exact R3].
+Qed.
+
 Lemma rinv_sub : forall T lo hi r,
   rinv T lo hi r ->
   exists r' sub, reset_buff_into_sub_reader r = Val (r', sub) /\
@@ -196,67 +270,50 @@ Proof.
   destruct H as [A [P [Bf [S [B [E1 [E2 [E3 [E4 [E5 [E6 [R [L1 L2]]]]]]]]]]]]].
   assert (Hlen : r_len r = bytes P + bytes Bf + bytes S).
   { rewrite <- E4, E2. rewrite !bytes_app. lia. }
-  unfold reset_buff_into_sub_reader, current_text.
-  rewrite E2. rewrite (slice_app P Bf S (r_pos r) (r_pos r + r_blen r)) by lia.
-  unfold current_range, sr_start, sr_len. cbn [fst snd].
-  rewrite <- E6.
+  assert (Hct : current_text r = Some Bf).
+  { unfold current_text. rewrite E2. apply slice_app; lia. }
+  assert (Htk : take_bytes (r_text r) (r_pos r) = Some P).
+  { rewrite E2, <- E5. apply take_bytes_app. }
   destruct (new_with_range_ok Bf (r_start r + r_pos r)) as [sub Hsub].
-  rewrite Hsub. rewrite <- E5. rewrite take_bytes_app.
+  assert (Hcr : current_range r = (r_start r + r_pos r, bytes Bf)).
+  { unfold current_range. rewrite E6. reflexivity. }
+  destruct (new_with_range_fields _ _ _ _ Hsub) as [F1 [F2 [F3 [F4 [F5 F6]]]]].
   assert (Hs : rinv T lo hi sub).
-  { unfold new_with_range in Hsub. rewrite N.eqb_refl in Hsub.
-    destruct (chars_next Bf) as [c s1] eqn:C1. destruct (chars_next s1) as [n s2] eqn:C2.
-    inversion Hsub; subst sub; clear Hsub.
-    destruct (repr_of_text _ _ _ _ _ C1 C2) as [R1 [R2 R3]].
-    exists (A ++ P), [], [], Bf, (S ++ B).
-    cbn [app r_text r_start r_len r_pos r_blen bytes].
-    repeat split; try assumption; try reflexivity; try lia.
-    - subst T. rewrite <- !app_assoc. reflexivity.
-    - rewrite bytes_app. lia. }
-  assert (Hse : r_start sub = r_start r + bytes P /\ r_len sub = bytes Bf).
-  { unfold new_with_range in Hsub. rewrite N.eqb_refl in Hsub.
-    destruct (chars_next Bf) as [c s1]. destruct (chars_next s1) as [n s2].
-    inversion Hsub; subst sub. split; reflexivity. }
-  destruct Hse as [Hs1 Hs2].
+  { exists (A ++ P), [], [], Bf, (S ++ B). cbn [app bytes].
+    split; [subst T; rewrite <- !app_assoc; reflexivity|].
+    split; [exact F1|]. split; [rewrite bytes_app; lia|]. split; [rewrite F1, F3; reflexivity|].
+    split; [lia|]. split; [lia|]. split; [exact F6|]. split; lia. }
+  unfold reset_buff_into_sub_reader. rewrite Hct, Hcr. unfold sr_start, sr_len. cbn [fst snd].
+  rewrite Hsub, Htk.
   destruct (last_char P) as [pc|].
   - eexists _, _. split; [reflexivity|]. split; [exact Hreset|]. split.
     + apply rinv_set_prev. exact Hs.
-    + cbn [set_prev r_start r_len]. rewrite Hs1, Hs2. reflexivity.
+    + cbn [set_prev r_start r_len]. rewrite F2, F3. reflexivity.
   - eexists _, _. split; [reflexivity|]. split; [exact Hreset|]. split; [exact Hs|].
-    rewrite Hs1, Hs2. reflexivity.
+    rewrite F2, F3. reflexivity.
 Qed.
 
 (** the loops stop for the right reason: [loop_fuel] never runs out *)
-Lemma eat_go_stops : forall fuel p limit r n S,
-  repr r S -> (length S < fuel)%nat ->
-  let '(r', n') := eat_go fuel p limit r n in
-  is_eof r' = true \/ p (r_cur r') = false \/ (exists k, limit = Some k /\ k <= n').
+Lemma eat_go_stops : forall fuel p limit r n P Bf S,
+  linv r P Bf S -> (length S < fuel)%nat ->
+  is_eof (fst (eat_go fuel p limit r n)) = true \/
+  p (r_cur (fst (eat_go fuel p limit r n))) = false \/
+  (exists k, limit = Some k /\ k <= snd (eat_go fuel p limit r n)).
 Proof.
-  induction fuel as [|f IH]; intros p limit r n S HR HL; [inversion HL|].
-  cbn [eat_go]. unfold is_eof.
-  destruct (N.eqb_spec (r_cur r) EOF) as [Z|Z]; cbn [negb andb].
-  - left. unfold is_eof. apply N.eqb_eq. exact Z.
-  - destruct (p (r_cur r)) eqn:Hp; cbn [andb]; [|right; left; exact Hp].
-    destruct limit as [k|].
-    + destruct (N.ltb_spec n k) as [L|L].
-      * destruct HR as [R1 [R2 R3]].
-        destruct S as [|c S]; [cbn in R1; contradiction|]. cbn [hd tl] in R1, R2, R3.
-        apply (IH p (Some k) (bump r) (n + 1) S).
-        -- unfold bump. destruct (N.eqb_spec (r_cur r) EOF) as [Z'|_]; [contradiction|].
-           destruct (chars_next (r_chars r)) as [x s] eqn:C. unfold repr. cbn [r_cur r_next r_chars].
-           rewrite R3 in C. destruct S as [|y S]; cbn [hd tl] in *.
-           ++ cbn in C. inversion C; subst. repeat split; assumption.
-           ++ destruct S as [|z S]; cbn in C; inversion C; subst; repeat split; assumption.
-        -- cbn [length] in HL. lia.
-      * right. right. exists k. split; [reflexivity|exact L].
-    + destruct HR as [R1 [R2 R3]].
-      destruct S as [|c S]; [cbn in R1; contradiction|]. cbn [hd tl] in R1, R2, R3.
-      apply (IH p None (bump r) (n + 1) S).
-      * unfold bump. destruct (N.eqb_spec (r_cur r) EOF) as [Z'|_]; [contradiction|].
-        destruct (chars_next (r_chars r)) as [x s] eqn:C. unfold repr. cbn [r_cur r_next r_chars].
-        rewrite R3 in C. destruct S as [|y S]; cbn [hd tl] in *.
-        -- cbn in C. inversion C; subst. repeat split; assumption.
-        -- destruct S as [|z S]; cbn in C; inversion C; subst; repeat split; assumption.
-      * cbn [length] in HL. lia.
+  induction fuel as [|f IH]; intros p limit r n P Bf S HR HL; [inversion HL|].
+  cbn [eat_go].
+  destruct (negb (is_eof r) && p (r_cur r) && match limit with Some k => n <? k | None => true end) eqn:G.
+  - apply andb_true_iff in G. destruct G as [G G3]. apply andb_true_iff in G. destruct G as [G1 G2].
+    apply negb_true_iff in G1.
+    destruct (linv_not_eof _ _ _ _ HR G1) as [c [S' [ES EC]]]. subst S.
+    pose proof (linv_bump _ _ _ _ _ HR G1) as R'. cbn [length] in HL.
+    apply (IH p limit (bump r) (n + 1) P (Bf ++ [c]) S' R'). lia.
+  - cbn [fst snd]. apply andb_false_iff in G. destruct G as [G|G].
+    + apply andb_false_iff in G. destruct G as [G|G].
+      * left. apply negb_false_iff in G. exact G.
+      * right. left. exact G.
+    + right. right. destruct limit as [k|]; [|discriminate].
+      exists k. split; [reflexivity|]. apply N.ltb_ge in G. exact G.
 Qed.
 
 (* ------------------------------------------------------------------ emit_range *)
@@ -283,17 +340,22 @@ Lemma item_ok_of_range : forall T lo hi rg k,
   item_ok T lo hi {| i_start := sr_start rg; i_end := sr_end rg; i_kind := k |}.
 Proof.
   intros T lo hi rg k [H1 [H2 [H3 H4]]]. unfold item_ok. cbn [i_start i_end].
-  unfold sr_end in *. repeat split; try assumption; lia.
+  split; [exact H1|]. split; [unfold sr_end, sr_start, sr_len; lia|]. split; [exact H2|]. split; assumption.
 Qed.
 
 Lemma item_ok_cover : forall T lo hi a rg,
   item_ok T lo hi a -> range_ok T lo hi rg -> item_ok T lo hi (cover a (sr_start rg) (sr_end rg)).
 Proof.
   intros T lo hi a rg [A1 [A2 [A3 [A4 A5]]]] [H1 [H2 [H3 H4]]].
-  unfold item_ok, cover. cbn [i_start i_end]. unfold sr_end in *.
-  destruct (N.min_spec (i_start a) (sr_start rg)) as [[_ E]|[_ E]];
-  destruct (N.max_spec (i_end a) (sr_start rg + sr_len rg)) as [[_ F]|[_ F]];
-  rewrite E, F; repeat split; try assumption; lia.
+  assert (H0 : sr_start rg <= sr_end rg) by (unfold sr_end, sr_start, sr_len; lia).
+  unfold item_ok, cover. cbn [i_start i_end].
+  destruct (N.min_spec (i_start a) (sr_start rg)) as [[M1 E]|[M1 E]];
+  destruct (N.max_spec (i_end a) (sr_end rg)) as [[M2 F]|[M2 F]];
+  rewrite E, F.
+  - split; [lia|]. split; [lia|]. split; [lia|]. split; assumption.
+  - split; [lia|]. split; [lia|]. split; [lia|]. split; assumption.
+  - split; [lia|]. split; [lia|]. split; [lia|]. split; assumption.
+  - split; [lia|]. split; [lia|]. split; [lia|]. split; assumption.
 Qed.
 
 Lemma emit_range_ok : forall T lo hi cursor results rg k,
@@ -387,15 +449,16 @@ Proof.
     destruct (nth_error (m_readers st) j) as [rj|] eqn:Nj; [|discriminate].
     assert (Hri : rinv T lo hi ri) by (eapply Forall_nth_error; eassumption).
     assert (Hrj : rinv T lo hi rj) by (eapply Forall_nth_error; eassumption).
-    destruct (N.leb_spec (sr_start (current_range ri)) (sr_end (current_range rj))) as [L|L]; [|discriminate].
-    inversion H; subst st'. split; cbn [m_readers m_results]; [exact HR|].
-    apply emit_range_ok; [exact HI|].
     destruct (proj1 (rinv_current_range _ _ _ _ Hri)) as [A1 [A2 [A3 A4]]].
     destruct (proj1 (rinv_current_range _ _ _ _ Hrj)) as [B1 [B2 [B3 B4]]].
-    unfold range_ok, sr_start, sr_end, sr_len in *. cbn [fst snd] in *.
-    replace (fst (current_range ri) + (fst (current_range rj) + snd (current_range rj) - fst (current_range ri)))
-      with (fst (current_range rj) + snd (current_range rj)) by lia.
-    repeat split; assumption.
+    remember (sr_start (current_range ri)) as s eqn:Es.
+    remember (sr_end (current_range rj)) as e eqn:Ee.
+    destruct (N.leb_spec s e) as [L|L]; [|discriminate].
+    injection H as H'. subst st'. split; cbn [m_readers m_results]; [exact HR|].
+    apply emit_range_ok; [exact HI|].
+    unfold range_ok. unfold sr_end, sr_start, sr_len. cbn [fst snd].
+    replace (s + (e - s)) with e by lia.
+    split; [exact A1|]. split; [exact B2|]. split; [exact A3|exact B4].
   - (* OEmitTail *)
     destruct (nth_error (m_readers st) i) as [r|] eqn:Nt; [|discriminate].
     assert (Hr : rinv T lo hi r) by (eapply Forall_nth_error; eassumption).
@@ -439,7 +502,6 @@ Proof.
   - destruct (nth_error (m_readers st) i) as [r|] eqn:Nt; [|discriminate].
     assert (Hr : rinv T lo hi r) by (eapply Forall_nth_error; eassumption).
     destruct (rinv_tail_range _ _ _ _ Hr) as [rg [E _]]. rewrite E. discriminate.
-  - discriminate.
 Qed.
 
 Lemma run_no_panic : forall T lo hi cursor ops st,
@@ -541,4 +603,412 @@ Lemma insert_left_stable_head : forall x l,
 Proof.
   intros x l H. destruct l as [|a l]; [reflexivity|].
   inversion H; subst. cbn [insert_left]. rewrite H2. reflexivity.
+Qed.
+
+(* ------------------------------------------------------------------ desc_to_lines *)
+
+Lemma slice_of_boundaries : forall T a b,
+  boundaryb T a = true -> boundaryb T b = true -> a <= b -> exists s, slice T a b = Some s.
+Proof.
+  induction T as [|c T IH]; intros a b Ha Hb L; unfold boundaryb in Ha, Hb.
+  - cbn [take_bytes] in Ha, Hb.
+    destruct (N.eqb_spec a 0) as [Ea|Ea]; [|discriminate].
+    destruct (N.eqb_spec b 0) as [Eb|Eb]; [|discriminate].
+    subst. exists []. reflexivity.
+  - destruct (N.eqb_spec a 0) as [Ea|Ea].
+    + subst a. unfold slice. destruct (N.ltb_spec b 0) as [X|_]; [lia|].
+      rewrite drop_bytes_0. rewrite N.sub_0_r.
+      destruct (take_bytes (c :: T) b) as [s|]; [exists s; reflexivity|discriminate].
+    + assert (Eb : b <> 0) by lia.
+      cbn [take_bytes] in Ha, Hb.
+      destruct (N.eqb_spec a 0) as [X|_]; [contradiction|].
+      destruct (N.eqb_spec b 0) as [X|_]; [contradiction|].
+      destruct (N.ltb_spec a (blen c)) as [X|La]; [discriminate|].
+      destruct (N.ltb_spec b (blen c)) as [X|Lb]; [discriminate|].
+      destruct (take_bytes T (a - blen c)) as [pa|] eqn:Ta; [|discriminate].
+      destruct (take_bytes T (b - blen c)) as [pb|] eqn:Tb; [|discriminate].
+      assert (Ha' : boundaryb T (a - blen c) = true) by (unfold boundaryb; rewrite Ta; reflexivity).
+      assert (Hb' : boundaryb T (b - blen c) = true) by (unfold boundaryb; rewrite Tb; reflexivity).
+      destruct (IH (a - blen c) (b - blen c) Ha' Hb') as [s Hs]; [lia|].
+      exists s. unfold slice in *.
+      destruct (N.ltb_spec b a) as [X|_]; [lia|].
+      destruct (N.ltb_spec (b - blen c) (a - blen c)) as [X|_]; [lia|].
+      cbn [drop_bytes].
+      destruct (N.eqb_spec a 0) as [X|_]; [contradiction|].
+      destruct (N.ltb_spec a (blen c)) as [X|_]; [lia|].
+      replace (b - a) with (b - blen c - (a - blen c)) by lia. exact Hs.
+Qed.
+
+Definition tok_ok (T : text) (lo hi : N) (tk : tok) : Prop :=
+  range_ok T lo hi (t_start tk, t_len tk).
+
+(** a line is inside the region on character boundaries, or it is the sentinel [EMPTY] that
+    an end-of-line token pushes when no start/detail token preceded it *)
+Definition line_ok' (T : text) (lo hi : N) (l : srange) : Prop :=
+  l = EMPTY \/ range_ok T lo hi l.
+
+Lemma line_text_some : forall T lo hi l, line_ok' T lo hi l -> exists lt, line_text T l = Some lt.
+Proof.
+  intros T lo hi l [E|[H1 [H2 [H3 H4]]]].
+  - subst l. exists []. unfold line_text, EMPTY, sr_start, sr_end, slice. cbn [fst snd].
+    rewrite N.add_0_r. cbn. rewrite drop_bytes_0. apply take_bytes_0.
+  - unfold line_text. apply slice_of_boundaries; try assumption.
+    unfold sr_end, sr_start, sr_len. lia.
+Qed.
+
+Lemma count_while_prefix : forall p (t : text) k,
+  k <= count_while p t ->
+  exists (w rest : text), t = w ++ rest /\ forallb p w = true /\ N.of_nat (length w) = k.
+Proof.
+  induction t as [|c t IH]; intros k Hk; cbn [count_while] in Hk.
+  - exists [], []. split; [reflexivity|]. split; [reflexivity|]. cbn. lia.
+  - destruct (N.eqb_spec k 0) as [E|E].
+    + exists [], (c :: t). split; [reflexivity|]. split; [reflexivity|]. cbn. lia.
+    + destruct (p c) eqn:Pc; [|lia].
+      destruct (IH (k - 1)) as [w [rest [E1 [E2 E3]]]]; [lia|].
+      exists (c :: w), rest. split; [cbn [app]; f_equal; exact E1|].
+      split; [cbn [forallb]; rewrite Pc, E2; reflexivity|].
+      cbn [length]. lia.
+Qed.
+
+Lemma forallb_count_while : forall p (t : text), forallb p t = true -> count_while p t = N.of_nat (length t).
+Proof.
+  induction t as [|c t IH]; intros H; [reflexivity|].
+  cbn [forallb] in H. apply andb_true_iff in H. destruct H as [Hc Ht].
+  cbn [count_while length]. rewrite Hc, (IH Ht). lia.
+Qed.
+
+Lemma ascii_bytes_len : forall (w : text), forallb (fun c => c <? 128) w = true -> bytes w = N.of_nat (length w).
+Proof.
+  induction w as [|c w IH]; intros H; [reflexivity|].
+  cbn [forallb] in H. apply andb_true_iff in H. destruct H as [Hc Hw].
+  cbn [bytes length]. rewrite (ascii_blen _ Hc), (IH Hw). lia.
+Qed.
+
+Lemma forallb_impl : forall (p q : cp -> bool) w,
+  (forall c, p c = true -> q c = true) -> forallb p w = true -> forallb q w = true.
+Proof.
+  intros p q w Hpq. induction w as [|c w IH]; intros H; [reflexivity|].
+  cbn [forallb] in *. apply andb_true_iff in H. destruct H as [Hc Hw].
+  rewrite (Hpq _ Hc), (IH Hw). reflexivity.
+Qed.
+
+Lemma small_is_ascii : forall c, c < 128 -> (c <? 128) = true.
+Proof. intros c H. apply N.ltb_lt. exact H. Qed.
+
+Lemma is_ws_ascii : forall c, is_ws c = true -> (c <? 128) = true.
+Proof.
+  intros c H. unfold is_ws in H. apply orb_true_iff in H.
+  apply small_is_ascii. destruct H as [H|H]; apply N.eqb_eq in H; lia.
+Qed.
+
+Lemma dash_ascii : forall c, (c =? DASH) = true -> (c <? 128) = true.
+Proof. intros c H. apply N.eqb_eq in H. apply small_is_ascii. unfold DASH in H. lia. Qed.
+
+Lemma is_ascii_whitespace_ascii : forall c, is_ascii_whitespace c = true -> (c <? 128) = true.
+Proof.
+  intros c H. unfold is_ascii_whitespace in H. apply small_is_ascii.
+  repeat (apply orb_true_iff in H; destruct H as [H|H]); apply N.eqb_eq in H; lia.
+Qed.
+
+(** an ASCII prefix of [k] characters of the slice [a..b] ends on a boundary inside it *)
+Lemma ascii_prefix_boundary : forall (T : text) a b (w rest : text),
+  slice T a b = Some (w ++ rest) -> forallb (fun c => c <? 128) w = true ->
+  boundaryb T (a + N.of_nat (length w)) = true /\ a + N.of_nat (length w) <= b.
+Proof.
+  intros T a b w rest Hs Hw.
+  destruct (slice_spec _ _ _ _ Hs) as [p [r [E1 [E2 [E3 E4]]]]].
+  rewrite <- (ascii_bytes_len _ Hw). split.
+  - subst T. replace (p ++ (w ++ rest) ++ r) with (p ++ w ++ (rest ++ r))
+      by (rewrite <- !app_assoc; reflexivity).
+    apply boundaryb_mid_end. lia.
+  - rewrite bytes_app in E4. lia.
+Qed.
+
+Definition dinv (T : text) (lo hi : N) (st : dstate) : Prop :=
+  Forall (line_ok' T lo hi) (d_lines st) /\ line_ok' T lo hi (d_line st).
+
+Lemma Forall_snoc : forall {A} (P : A -> Prop) l x, Forall P l -> P x -> Forall P (l ++ [x]).
+Proof. intros. apply Forall_app. split; [assumption|]. constructor; [assumption|constructor]. Qed.
+
+Lemma merge_ok : forall T lo hi (l : srange) tk,
+  line_ok' T lo hi l -> tok_ok T lo hi tk -> sr_end l = t_start tk ->
+  range_ok T lo hi (sr_start l, sr_len l + t_len tk).
+Proof.
+  intros T lo hi [s n] tk Hl [K1 [K2 [K3 K4]]] E.
+  unfold range_ok, sr_start, sr_end, sr_len in *. cbn [fst snd] in *.
+  assert (X : s + (n + t_len tk) = t_start tk + t_len tk) by lia. rewrite X.
+  destruct Hl as [Hl|[A1 [A2 [A3 A4]]]].
+  - unfold EMPTY in Hl. injection Hl as Hs Hn. subst s n.
+    assert (Y : t_start tk = 0) by lia. rewrite Y in *.
+    split; [lia|]. split; [exact K2|]. split; [exact K3|exact K4].
+  - split; [exact A1|]. split; [exact K2|]. split; [exact A3|exact K4].
+Qed.
+
+Lemma handle_token_ok : forall T lo hi st tk,
+  dinv T lo hi st -> tok_ok T lo hi tk ->
+  exists st', handle_token T st tk = Val st' /\ dinv T lo hi st'.
+Proof.
+  intros T lo hi st tk [HL Hl] Htk.
+  pose proof Htk as [K1 [K2 [K3 K4]]].
+  unfold sr_start, sr_end, sr_len in K1, K2, K3, K4. cbn [fst snd] in K1, K2, K3, K4.
+  unfold handle_token. destruct (t_kind tk).
+  - (* TDetail *)
+    destruct (d_skip st); [eexists; split; [reflexivity|split; assumption]|].
+    unfold sr_start at 1. cbn [fst].
+    destruct (N.eqb_spec (sr_end (d_line st)) (t_start tk)) as [E|E].
+    + eexists. split; [reflexivity|]. split; cbn [d_lines d_line]; [exact HL|]. right.
+      unfold sr_len at 2. cbn [snd]. apply merge_ok; assumption.
+    + destruct (srange_eqb (d_line st) EMPTY) eqn:Q; cbn [negb].
+      * eexists. split; [reflexivity|]. split; cbn [d_lines d_line]; [exact HL|]. right. exact Htk.
+      * destruct (line_text_some _ _ _ _ Hl) as [lt Hlt]. rewrite Hlt.
+        eexists. split; [reflexivity|]. split; cbn [d_lines d_line].
+        -- apply Forall_snoc; assumption.
+        -- right. exact Htk.
+  - (* TEol *)
+    destruct (line_text_some _ _ _ _ Hl) as [lt Hlt]. rewrite Hlt.
+    eexists. split; [reflexivity|]. split; cbn [d_lines d_line].
+    + apply Forall_snoc; assumption.
+    + left. reflexivity.
+  - (* TNormalStart *)
+    destruct (slice_of_boundaries T (t_start tk) (t_start tk + t_len tk) K3 K4) as [tx Htx]; [lia|].
+    rewrite Htx.
+    destruct (N.eqb_spec (count_while (fun c => c =? DASH) tx) 3) as [M|M]; cbn [negb].
+    + eexists. split; [reflexivity|]. split; cbn [d_lines d_line]; [exact HL|]. right.
+      destruct (count_while_prefix (fun c => c =? DASH) tx 3) as [w [rest [E1 [E2 E3]]]]; [lia|].
+      subst tx. pose proof (forallb_impl _ _ _ dash_ascii E2) as Hw.
+      destruct (ascii_prefix_boundary _ _ _ _ _ Htx Hw) as [B1 B2]. rewrite E3 in B1, B2.
+      rewrite M. unfold range_ok, sr_start, sr_end, sr_len. cbn [fst snd].
+      replace (t_start tk + 3 + (t_len tk - 3)) with (t_start tk + t_len tk) by lia.
+      split; [lia|]. split; [exact K2|]. split; [exact B1|exact K4].
+    + eexists. split; [reflexivity|]. split; cbn [d_lines d_line]; [exact HL|]. right.
+      unfold range_ok, sr_start, sr_end, sr_len. cbn [fst snd]. rewrite N.add_0_r.
+      split; [exact K1|]. split; [lia|]. split; exact K3.
+  - (* TContinue *)
+    destruct (slice_of_boundaries T (t_start tk) (t_start tk + t_len tk) K3 K4) as [tx Htx]; [lia|].
+    rewrite Htx.
+    destruct (N.eqb_spec (count_while (fun c => c =? DASH) tx) 3) as [M|M]; cbn [negb].
+    + eexists. split; [reflexivity|]. split; cbn [d_lines d_line]; [exact HL|]. right.
+      destruct (count_while_prefix (fun c => c =? DASH) tx 3) as [w [rest [E1 [E2 E3]]]]; [lia|].
+      subst tx. pose proof (forallb_impl _ _ _ dash_ascii E2) as Hw.
+      destruct (ascii_prefix_boundary _ _ _ _ _ Htx Hw) as [B1 B2]. rewrite E3 in B1, B2.
+      rewrite M. unfold range_ok, sr_start, sr_end, sr_len. cbn [fst snd].
+      replace (t_start tk + 3 + (t_len tk - 3)) with (t_start tk + t_len tk) by lia.
+      split; [lia|]. split; [exact K2|]. split; [exact B1|exact K4].
+    + eexists. split; [reflexivity|]. split; cbn [d_lines d_line]; [exact HL|]. right.
+      unfold range_ok, sr_start, sr_end, sr_len. cbn [fst snd]. rewrite N.add_0_r.
+      split; [exact K1|]. split; [lia|]. split; exact K3.
+  - (* TOther *)
+    eexists. split; [reflexivity|]. split; assumption.
+Qed.
+
+Lemma handle_tokens_ok : forall T lo hi tks st,
+  dinv T lo hi st -> Forall (tok_ok T lo hi) tks ->
+  exists st', handle_tokens T st tks = Val st' /\ dinv T lo hi st'.
+Proof.
+  intros T lo hi. induction tks as [|tk tks IH]; intros st Hd Ht; cbn [handle_tokens].
+  - exists st. split; [reflexivity|exact Hd].
+  - inversion Ht; subst.
+    destruct (handle_token_ok _ _ _ _ _ Hd H1) as [st1 [E1 D1]]. rewrite E1.
+    apply IH; assumption.
+Qed.
+
+Lemma strip_front_ok : forall T lo hi ls,
+  Forall (line_ok' T lo hi) ls ->
+  exists r, strip_front T ls = Val r /\ Forall (line_ok' T lo hi) r.
+Proof.
+  intros T lo hi. induction ls as [|l ls IH]; intros H; cbn [strip_front].
+  - exists []. split; [reflexivity|constructor].
+  - inversion H; subst. destruct (line_text_some _ _ _ _ H2) as [lt Hlt]. rewrite Hlt.
+    destruct (all_dash (trim_end lt)).
+    + apply IH. assumption.
+    + exists (l :: ls). split; [reflexivity|exact H].
+Qed.
+
+Lemma strip_back_ok : forall T lo hi ls,
+  Forall (line_ok' T lo hi) ls ->
+  exists r, strip_back T ls = Val r /\ Forall (line_ok' T lo hi) r.
+Proof.
+  intros T lo hi ls H. unfold strip_back.
+  destruct (strip_front_ok T lo hi (rev ls)) as [r [E Hr]]; [apply Forall_rev; exact H|].
+  rewrite E. exists (rev r). split; [reflexivity|]. apply Forall_rev. exact Hr.
+Qed.
+
+(** the common indent is at most the indent of every non-blank line *)
+Definition indent_bound (T : text) (ls : list srange) (c : N) : Prop :=
+  forall l lt, In l ls -> line_text T l = Some lt -> is_blank lt = false -> c <= count_while is_ws lt.
+
+Lemma common_indent_ok : forall T lo hi ls acc,
+  Forall (line_ok' T lo hi) ls ->
+  exists r, common_indent T ls acc = Val r /\
+    (forall c, r = Some c -> indent_bound T ls c /\ (forall a, acc = Some a -> c <= a)) /\
+    (r = None -> acc = None).
+Proof.
+  intros T lo hi. induction ls as [|l ls IH]; intros acc H; cbn [common_indent].
+  - exists acc. split; [reflexivity|]. split.
+    + intros c Hc. split; [intros l lt []|]. intros a Ha. rewrite Hc in Ha. inversion Ha; subst. lia.
+    + intros Hn. exact Hn.
+  - inversion H; subst. destruct (line_text_some _ _ _ _ H2) as [lt Hlt]. rewrite Hlt.
+    destruct (is_blank lt) eqn:Bl.
+    + destruct (IH acc H3) as [r [E [P1 P2]]]. exists r. split; [exact E|]. split; [|exact P2].
+      intros c Hc. destruct (P1 c Hc) as [Q1 Q2]. split; [|exact Q2].
+      intros l' lt' [Hin|Hin] Hlt' Hb.
+      * subst l'. rewrite Hlt in Hlt'. inversion Hlt'; subst. congruence.
+      * eapply Q1; eassumption.
+    + set (acc' := Some (match acc with None => count_while is_ws lt | Some c => N.min c (count_while is_ws lt) end)).
+      destruct (IH acc' H3) as [r [E [P1 P2]]]. exists r. split; [exact E|]. split.
+      * intros c Hc. destruct (P1 c Hc) as [Q1 Q2]. specialize (Q2 _ eq_refl). split.
+        -- intros l' lt' [Hin|Hin] Hlt' Hb.
+           ++ subst l'. rewrite Hlt in Hlt'. inversion Hlt'; subst. destruct acc; lia.
+           ++ eapply Q1; eassumption.
+        -- intros a Ha. subst acc. lia.
+      * intros Hn. specialize (P2 Hn). discriminate.
+Qed.
+
+Lemma dedent_ok : forall T lo hi ls ci l,
+  0 < ci -> indent_bound T ls ci -> In l ls -> line_ok' T lo hi l -> line_ok' T lo hi (dedent ci l).
+Proof.
+  intros T lo hi ls ci l Hci Hb Hin Hl. unfold dedent.
+  destruct (N.leb_spec ci (sr_len l)) as [L|L]; [|exact Hl].
+  destruct Hl as [E|Hr].
+  - subst l. unfold EMPTY, sr_len in L. cbn in L. lia.
+  - right. pose proof Hr as [H1 [H2 [H3 H4]]].
+    destruct (line_text_some T lo hi l (or_intror Hr)) as [lt Hlt].
+    assert (Hpre : exists w rest, lt = w ++ rest /\ forallb (fun c => c <? 128) w = true /\ N.of_nat (length w) = ci).
+    { destruct (is_blank lt) eqn:Bl.
+      - unfold is_blank in Bl.
+        assert (Hb' : bytes lt = N.of_nat (length lt)).
+        { apply ascii_bytes_len. eapply forallb_impl; [|exact Bl]. apply is_ascii_whitespace_ascii. }
+        unfold line_text in Hlt. destruct (slice_spec _ _ _ _ Hlt) as [p [r [_ [_ [_ E4]]]]].
+        unfold sr_end, sr_start, sr_len in E4, L.
+        destruct (count_while_prefix is_ascii_whitespace lt ci) as [w [rest [E1 [E2 E3]]]].
+        { rewrite (forallb_count_while _ _ Bl). lia. }
+        exists w, rest. split; [exact E1|]. split; [|exact E3].
+        eapply forallb_impl; [|exact E2]. apply is_ascii_whitespace_ascii.
+      - destruct (count_while_prefix is_ws lt ci) as [w [rest [E1 [E2 E3]]]].
+        { eapply Hb; eassumption. }
+        exists w, rest. split; [exact E1|]. split; [|exact E3].
+        eapply forallb_impl; [|exact E2]. apply is_ws_ascii. }
+    destruct Hpre as [w [rest [E1 [E2 E3]]]]. subst lt.
+    unfold line_text in Hlt.
+    destruct (ascii_prefix_boundary _ _ _ _ _ Hlt E2) as [B1 B2]. rewrite E3 in B1, B2.
+    unfold range_ok, sr_start, sr_end, sr_len in *. cbn [fst snd].
+    replace (fst l + ci + (snd l - ci)) with (fst l + snd l) by lia.
+    split; [lia|]. split; [exact H2|]. split; [exact B1|exact H4].
+Qed.
+
+Lemma cut_at_cursor_ok : forall (P : srange -> Prop) c ls, Forall P ls -> Forall P (cut_at_cursor c ls).
+Proof.
+  intros P c. induction ls as [|l ls IH]; intros H; cbn [cut_at_cursor]; [constructor|].
+  inversion H; subst. destruct (c <? sr_start l); [constructor|]. constructor; [assumption|].
+  apply IH. assumption.
+Qed.
+
+Lemma Forall_map_dedent : forall T lo hi ci ls,
+  0 < ci -> indent_bound T ls ci -> Forall (line_ok' T lo hi) ls ->
+  Forall (line_ok' T lo hi) (map (dedent ci) ls).
+Proof.
+  intros T lo hi ci ls Hci Hb H. apply Forall_forall. intros x Hx.
+  apply in_map_iff in Hx. destruct Hx as [l [E Hin]]. subst x.
+  eapply dedent_ok; try eassumption. apply (proj1 (Forall_forall _ _) H). exact Hin.
+Qed.
+
+Definition prev_toks (prev : option tok) : list tok :=
+  match prev with Some p => [p] | None => [] end.
+
+Lemma desc_to_lines_ok : forall T lo hi prev tks cursor,
+  Forall (tok_ok T lo hi) (prev_toks prev ++ tks) ->
+  exists ls, desc_to_lines T prev tks cursor = Val ls /\ Forall (line_ok' T lo hi) ls.
+Proof.
+  intros T lo hi prev tks cursor Hall.
+  apply Forall_app in Hall. destruct Hall as [Hp Ht].
+  set (st0 := {| d_lines := []; d_line := EMPTY; d_skip := false; d_seen := false |}).
+  assert (D0 : dinv T lo hi st0) by (split; [constructor|left; reflexivity]).
+  assert (H1 : exists st1,
+    match prev with
+    | Some p => match t_kind p with TNormalStart => handle_token T st0 p | _ => Val st0 end
+    | None => Val st0
+    end = Val st1 /\ dinv T lo hi st1).
+  { destruct prev as [p|]; [|exists st0; split; [reflexivity|exact D0]].
+    cbn [prev_toks] in Hp. inversion Hp; subst.
+    destruct (t_kind p); try (exists st0; split; [reflexivity|exact D0]).
+    apply handle_token_ok; assumption. }
+  destruct H1 as [st1 [E1 D1]].
+  unfold desc_to_lines. fold st0. rewrite E1.
+  destruct (handle_tokens_ok _ _ _ _ _ D1 Ht) as [st2 [E2 [DL Dl]]]. rewrite E2.
+  assert (Hfin : exists lines seen,
+    (if negb (sr_len (d_line st2) =? 0) then
+       match line_text T (d_line st2) with
+       | None => Panic
+       | Some lt => Val (d_lines st2 ++ [d_line st2], d_seen st2 || negb (all_dash (trim_end lt)))
+       end
+     else Val (d_lines st2, d_seen st2)) = Val (lines, seen) /\ Forall (line_ok' T lo hi) lines).
+  { destruct (negb (sr_len (d_line st2) =? 0)).
+    - destruct (line_text_some _ _ _ _ Dl) as [lt Hlt]. rewrite Hlt.
+      eexists _, _. split; [reflexivity|]. apply Forall_snoc; assumption.
+    - eexists _, _. split; [reflexivity|]. exact DL. }
+  destruct Hfin as [lines [seen [E3 HL]]]. rewrite E3.
+  destruct (negb seen); [exists []; split; [reflexivity|constructor]|].
+  destruct (strip_front_ok _ _ _ _ HL) as [l1 [E4 H4]]. rewrite E4.
+  destruct (strip_back_ok _ _ _ _ H4) as [l2 [E5 H5]]. rewrite E5.
+  destruct (common_indent_ok T lo hi l2 None H5) as [ci [E6 [P1 P2]]]. rewrite E6.
+  eexists. split; [reflexivity|].
+  assert (H6 : Forall (line_ok' T lo hi)
+            (if 0 <? match ci with Some c => c | None => 0 end
+             then map (dedent match ci with Some c => c | None => 0 end) l2 else l2)).
+  { destruct ci as [c|].
+    - destruct (N.ltb_spec 0 c) as [L|L]; [|exact H5].
+      destruct (P1 c eq_refl) as [Q _]. apply Forall_map_dedent; assumption.
+    - cbn. exact H5. }
+  destruct cursor as [c|]; [apply cut_at_cursor_ok|]; exact H6.
+Qed.
+
+(* ------------------------------------------------------------------ statements of Props.v *)
+
+Lemma reader_range_in_bounds : forall (T : text) (lo hi : N) (cursor : option N) (ops : list op) (st : mstate),
+  run T lo hi cursor init ops = Val st ->
+  forall r, In r (m_readers st) ->
+    (range_ok T lo hi (current_range r) /\ in_own_range r (current_range r)) /\
+    (exists rg, tail_range r = Val rg /\ range_ok T lo hi rg /\ in_own_range r rg).
+Proof.
+  intros T lo hi cursor ops st H r Hin.
+  destruct (minv_run _ _ _ _ _ _ _ (minv_init T lo hi) H) as [HR _].
+  pose proof (proj1 (Forall_forall _ _) HR r Hin) as Hr.
+  split; [apply rinv_current_range; exact Hr|apply rinv_tail_range; exact Hr].
+Qed.
+
+Lemma emitted_items_in_bounds : forall (T : text) (lo hi : N) (cursor : option N) (ops : list op) (st : mstate),
+  run T lo hi cursor init ops = Val st -> Forall (item_ok T lo hi) (m_results st).
+Proof.
+  intros T lo hi cursor ops st H.
+  exact (proj2 (minv_run _ _ _ _ _ _ _ (minv_init T lo hi) H)).
+Qed.
+
+Lemma kernel_never_panics : forall (T : text) (lo hi : N) (cursor : option N) (ops : list op),
+  forallb (fun o => negb (may_panic o)) ops = true -> run T lo hi cursor init ops <> Panic.
+Proof. intros T lo hi cursor ops Hf. exact (run_no_panic T lo hi cursor ops init (minv_init T lo hi) Hf). Qed.
+
+Lemma eat_loops_complete : forall (T : text) (lo hi : N) (r : reader) (p : cp -> bool) (limit : option N),
+  rinv T lo hi r ->
+  is_eof (fst (eat_go (loop_fuel r) p limit r 0)) = true \/
+  p (r_cur (fst (eat_go (loop_fuel r) p limit r 0))) = false \/
+  (exists k, limit = Some k /\ k <= snd (eat_go (loop_fuel r) p limit r 0)).
+Proof.
+  intros T lo hi r p limit H. destruct (rinv_linv _ _ _ _ H) as [P [Bf [S LI]]].
+  apply (eat_go_stops _ p limit r 0 P Bf S LI).
+  destruct LI as [_ [_ [_ [_ [_ R3]]]]]. unfold loop_fuel. rewrite R3.
+  destruct S as [|x [|y S]]; cbn [tl length]; lia.
+Qed.
+
+Lemma sort_result_starts_sorted : forall (l : list item),
+  StronglySorted (fun a b => i_start a <= i_start b) (sort_result l).
+Proof.
+  intros l. eapply StronglySorted_weaken; [|apply sort_result_strongly_sorted].
+  exact key_le_start.
+Qed.
+
+Lemma sort_result_in_bounds : forall (T : text) (lo hi : N) (l : list item),
+  Forall (item_ok T lo hi) l -> Forall (item_ok T lo hi) (sort_result l).
+Proof.
+  intros T lo hi l H. eapply Permutation_Forall; [apply sort_result_perm|exact H].
 Qed.
